@@ -219,7 +219,8 @@ def run_shard(spec):
             continue
         case = gen_case(core.rng(PID, spec["seed"], spec["shard"], i), dict(spec, case_index=i * 16 + spec["shard"]))
         problems, run = execute(case, result)
-        result.case({"endings": case["meta"]["endings"]}, nontrivial=len(run.of("running-observed")) >= 2,
+        result.case(common.sample(case, run, **{"endings": case["meta"]["endings"]}),
+                    nontrivial=len(run.of("running-observed")) >= 2,
                     key=common.shape(case) + str(case["meta"]))
         for what, mech in problems:
             clean = {k: v for k, v in spec.items() if k != "only_case"}
